@@ -224,6 +224,14 @@ impl Analyzer {
         log::debug!("SCAN WORKSPACE DOCUMENTS");
         self.scanner.scan()
     }
+    /// Update the buffered copy of `doc`, then scan the buffered documents (no gathering).
+    /// Use this when `doc` was just edited, so that the scan data (linker detection, entries, includes)
+    /// belong to the text that is about to be analyzed rather than to its previous version.
+    pub fn rescan_workspace_with(&mut self,doc: &Document) -> STDRESULT {
+        self.scanner.update_doc(doc);
+        log::debug!("SCAN WORKSPACE DOCUMENTS");
+        self.scanner.scan()
+    }
     pub fn rescan_workspace_and_update(&mut self,checkpoints: Vec<Document>) -> STDRESULT {
         log::debug!("GATHER WORKSPACE DOCUMENTS");
         self.scanner.gather_docs(&self.workspace_folders, 1000)?;
